@@ -49,6 +49,8 @@ import re
 import subprocess
 import sys
 
+sys.setrecursionlimit(100000)
+
 
 class Refused(Exception):
     """the function left the supported C subset"""
@@ -216,6 +218,7 @@ class Tr:
         self.ret_ranges = []
         self.uses_ext = []
         self.no_unroll = False
+        self.prune = False
 
     def refuse(self, msg):
         raise Refused('%s: %s' % (self.fn, msg))
@@ -296,6 +299,19 @@ class Tr:
                 if w != 32:
                     e = f'(BitVec.truncate 32 {e})'
                 return V(e, ('int', 32, True), (0, w - 1))
+            if name in ('__builtin_bswap32', '__builtin_bswap64') and self.mod:
+                a = self.expr(n['inner'][1], env)
+                w = 32 if name.endswith('32') else 64
+                if a.t != ('int', w, False):
+                    self.refuse(name + ' on ' + str(a.t))
+                x = self.atom(a.e)
+                if w == 32:
+                    e = (f'(({x} <<< 24) ||| (({x} &&& 65280#32) <<< 8) ||| (({x} >>> 8) &&& 65280#32) ||| '
+                         f'({x} >>> 24))')
+                else:
+                    e = ('(' + ' ||| '.join(
+                        f'((({x} >>> {8 * i}) &&& 255#64) <<< {56 - 8 * i})' for i in range(8)) + ')')
+                return V(e, a.t)
             sig = self.mod.sigs.get(name) if self.mod else None
             if sig is None or not sig.pure:
                 self.refuse('call to ' + str(name) + ' inside an expression')
@@ -461,7 +477,15 @@ class Tr:
             if op in ('&', '|', '^'):
                 m = {'&': '&&&', '|': '|||', '^': '^^^'}[op]
                 r = None
-                if a.r[0] >= 0 and b.r[0] >= 0:
+                if self.mod and a.r[0] == a.r[1] and b.r[0] == b.r[1]:
+                    # both operands known: fold exactly (two's complement at the width of the type)
+                    msk = (1 << t[1]) - 1
+                    x, y = a.r[0] & msk, b.r[0] & msk
+                    z = x & y if op == '&' else x | y if op == '|' else x ^ y
+                    if t[2] and z >= 1 << (t[1] - 1):
+                        z -= 1 << t[1]
+                    r = (z, z)
+                elif a.r[0] >= 0 and b.r[0] >= 0:
                     if op == '&':
                         r = (0, min(a.r[1], b.r[1]))
                     else:
@@ -517,7 +541,14 @@ class Tr:
 
     def elem(self, n, env):
         """`a[i]` on a word array: (env key, Lean index text, element type)"""
-        b = self.expr(n['inner'][0], env)
+        b0 = n['inner'][0]
+        while b0.get('kind') in ('ParenExpr', 'ImplicitCastExpr') and b0.get('castKind', 'NoOp') in ('LValueToRValue', 'NoOp'):
+            b0 = b0['inner'][-1]
+        if b0.get('kind') == 'DeclRefExpr' and isinstance(env.get(b0['referencedDecl']['name']), V) and \
+                env[b0['referencedDecl']['name']].t[0] == 'arr':
+            b = V('0', ('aptr', b0['referencedDecl']['name']))      # array parameter (a pointer in C)
+        else:
+            b = self.expr(n['inner'][0], env)
         if b.t[0] != 'aptr':
             return None
         key = b.t[1]
@@ -741,7 +772,7 @@ class Tr:
         for x in walk(n):
             if x.get('kind') == 'CallExpr':
                 name = callee_name(x)
-                if name in CLZ:
+                if name in CLZ or name in ('__builtin_bswap32', '__builtin_bswap64'):
                     continue
                 sig = self.mod.sigs.get(name) if self.mod else None
                 if sig is None or not sig.pure:
@@ -850,6 +881,12 @@ class Tr:
                 return self.stmts(([s['inner'][2]] if len(s['inner']) > 2 else []) + rest, dict(e), ret)
             if self.mod and self.has_impure(c0):
                 return self.branch(c0, dict(env), th, el)
+            if self.mod and self.prune:
+                st = self.static_truth(c0, env)
+                if st is not None:
+                    # the test is decided by the value ranges (macro instantiated with a constant):
+                    # only the live branch is translated
+                    return th(env) if st else el(env)
             if self.mod and any(x.get('kind') in ('WhileStmt', 'ForStmt') for r in rest for x in walk(r)) \
                     and not self.escapes(s['inner'][1:]):
                 return self.join_if(s, rest, env, ret)
@@ -982,7 +1019,7 @@ class Tr:
                 tgt = x['inner'][0]
             elif k == 'CallExpr':
                 name = callee_name(x)
-                if name not in CLZ and name not in MEM_FUNCS:
+                if name not in CLZ and name not in MEM_FUNCS and not str(name).startswith('__builtin_bswap'):
                     sig = self.mod.sigs.get(name) or self.mod.externs.get(name)
                     if sig is None or sig.struct_mut:
                         allf = True
@@ -1121,28 +1158,41 @@ class Tr:
         return False if al == ah == bl == bh else True if ah < bl or bh < al else None
 
     def unroll(self, cond, inc, body, rest, env, ret):
-        """loops whose every test is decided by interval analysis (`for (i = 0; i < 4; i++)` with
-        `i` untouched by the body) are unrolled; None = not such a loop"""
-        if self.no_unroll or inc is None or self.static_truth(cond, env) is None:
-            return None
-        iv = strip_parens(inc)
-        if iv.get('kind') != 'UnaryOperator' or iv.get('opcode') not in ('++', '--'):
-            return None
-        key = self.as_var(iv['inner'][0], False)
-        if key is None or key in self.assigned_keys(body):
+        """loops whose every test is decided by interval analysis (`for (i = 0; i < 4; i++)`,
+        `while (k_pos < 64) { ...16 times k_pos++... }`) are unrolled (at most 16 rounds);
+        None = not such a loop (first test undecided, or a later one: then nothing is kept)"""
+        if self.no_unroll or self.static_truth(cond, env) is None:
             return None
         if any(x.get('kind') in ('BreakStmt', 'ContinueStmt') for x in walk(body)):
             return None
+        if self.has_impure(cond) or self.peek(cond, env) is None:
+            return None
+
+        class Undecided(Exception):
+            pass
+
         def go(e, k):
             t = self.static_truth(cond, e)
             if t is None:
-                self.refuse('unrolled loop: test not decided after %d rounds' % k)
+                raise Undecided()
             if not t:
                 return self.stmts(rest, e, ret)
             if k >= 16:
-                self.refuse('unrolled loop: more than 16 rounds')
-            return self.stmts([body, inc, {'kind': '$unroll', 'go': go, 'k': k + 1}], e, ret)
-        return go(env, 0)
+                raise Undecided()
+            return self.stmts([body] + ([inc] if inc is not None else []) +
+                              [{'kind': '$unroll', 'go': go, 'k': k + 1}], e, ret)
+        saved = (self.cnt, self.nloops, len(self.loopdefs), list(self.pending), list(self.loads),
+                 len(self.uses_ext), len(self.ret_ranges), list(self.loops))
+        try:
+            return go(env, 0)
+        except Undecided:
+            self.cnt, self.nloops = saved[0], saved[1]
+            del self.loopdefs[saved[2]:]
+            self.pending, self.loads = saved[3], saved[4]
+            del self.uses_ext[saved[5]:]
+            del self.ret_ranges[saved[6]:]
+            self.loops = saved[7]
+            return None
 
     def atom(self, e):
         e = e.strip()
@@ -1268,7 +1318,8 @@ class Tr:
                 words.append(self.atom(v.e))
             else:
                 self.refuse(f'call to {sig.name}: parameter role {role}')
-        self.pure('call arguments')
+        if not (sig.pure and not sig.regions):
+            self.pure('call arguments')
         pre = []
         for r in sig.regions:
             if r == 'mem':
@@ -1899,12 +1950,13 @@ class Module:
 
     # ---- one function
     def fn(self, cname, roles, stop_at=(), keep=(), flt=None, lean_name=None, _unrolled=False, assume=None,
-           unroll=True):
+           unroll=True, prune=False):
         d = ast_of(self.src, cname, self.repo, self.extra, flt or self.flt or cname)
         name = lean_name or cname
         tr = Tr(name, roles, mod=self)
         tr.stop_at = tuple(stop_at)
         tr.no_unroll = not unroll
+        tr.prune = prune
         tr.keep = tuple(keep)
         body = [c for c in d['inner'] if c['kind'] == 'CompoundStmt'][0]
         collect_labels(body, tr)
@@ -1915,7 +1967,7 @@ class Module:
         if missing:
             tr.refuse('parameters %s not found (signature changed)' % sorted(missing))
         env = {}
-        cparams, leanparams, regions, outs = [], [], [], []
+        cparams, leanparams, regions, outs, arrouts = [], [], [], [], []
         for p in pdecls:
             pn = p['name']
             if pn not in roles:
@@ -1978,6 +2030,22 @@ class Module:
                 if role[1] not in regions:
                     regions.append(role[1])
                 cparams.append((pn, role, ('ptr',)))
+            elif isinstance(role, tuple) and role[0] == 'arr':
+                # `uint64_t v[4]` / `uint32_t *v` with the caller's promise of `role[1]` elements
+                if not q.endswith('*'):
+                    tr.refuse(f'array parameter {pn} of type {q}')
+                eq = q[:-1].strip()
+                const = eq.startswith('const ')
+                eq = eq.replace('const ', '').strip()
+                eq2 = p['type']['qualType'][:-1].replace('const ', '').strip()
+                et = INT_TYPES.get(eq) or INT_TYPES.get(eq2)
+                if et is None or et[0] < 8:
+                    tr.refuse(f'array parameter {pn} of type {q}')
+                env[pn] = V(lean_id(pn), ('arr', et[0], et[1], int(role[1])))
+                leanparams.append(f'({lean_id(pn)} : Array (BitVec {et[0]}))')
+                cparams.append((pn, role, ('arr',) + et))
+                if not const:
+                    arrouts.append(pn)
             elif role == 'src':
                 if not q.endswith('*'):
                     tr.refuse(f'source parameter {pn} of type {q}')
@@ -2015,7 +2083,7 @@ class Module:
             env['$ev'] = V('([] : List Ev)', ('ev',))
         struct_mut = bool(tr.struct) and not tr.struct[2]
         comps = (['ret'] if rett is not None else []) + (['struct'] if struct_mut else []) + \
-                (['ev'] if uses_mem else []) + [('out', o) for o in outs]
+                (['ev'] if uses_mem else []) + [('out', o) for o in outs] + [('arr', a) for a in arrouts]
 
         def comp_type(c):
             if c == 'ret':
@@ -2024,6 +2092,8 @@ class Module:
                 return tr.struct[1].name
             if c == 'ev':
                 return 'List Ev'
+            if c[0] == 'arr':
+                return f'Array (BitVec {env[c[1]].t[1]})'
             return env['*' + c[1]].t[1].join(['Option (', ')'])
         tys = [comp_type(c) for c in comps]
         rt = ' × '.join(tys) if tys else 'Unit'
@@ -2089,6 +2159,8 @@ class Module:
                     parts.append(tr.struct_val(env))
                 elif c == 'ev':
                     parts.append(env['$ev'].e)
+                elif c != 'ret' and c[0] == 'arr':
+                    parts.append(env[c[1]].e)
                 elif c != 'ret' and not reach:
                     parts.append(env['*' + c[1]].e)
             t = tuple_of(parts)
@@ -2116,7 +2188,8 @@ class Module:
         term = tr.stmts(body['inner'], env, ret)
         if has_loop and tr.nloops == 0:
             # every loop was unrolled: no fuel, no Option
-            return self.fn(cname, roles, stop_at, keep, flt, lean_name, _unrolled=True, assume=assume)
+            return self.fn(cname, roles, stop_at, keep, flt, lean_name, _unrolled=True, assume=assume,
+                           unroll=unroll, prune=prune)
         if _unrolled and tr.nloops:
             tr.refuse('internal: loop left after unrolling')
         if set(tr.uses_ext) - set(ext_used):
@@ -2141,6 +2214,8 @@ class Module:
 
     def text(self, namespace, header):
         out = '/- ' + header.strip() + ' -/\nset_option linter.unusedVariables false\n'
+        if max((p.count('\n  let ') for p in self.parts), default=0) > 300:
+            out += 'set_option maxRecDepth 100000\n'     # straight-line code of many hundred statements
         out += f'namespace {namespace}\n\n'
         if self.need_ev:
             out += EV_PRELUDE + '\n'
@@ -2287,6 +2362,75 @@ def c05t_module(repo=None, workdir='/tmp'):
     return m.text('Usual.Gen.C05T', GEN_NOTE % ('usual/crypto/chacha.c, usual/bits.h', 'C05'))
 
 
+C16_STUB = """#include "usual/hashing/siphash.c"
+#include "usual/hashing/lookup3.c"
+#include "usual/hashing/crc32.c"
+#include "usual/hashing/spooky.c"
+/* wrappers that instantiate the round / mix macros of siphash.c and lookup3.c on word arrays;
+   this glue is part of the trusted reading (DESIGN.md 10.22): the macro text is the repository's */
+void t_sip_round(uint64_t v[4])
+{ uint64_t v0 = v[0], v1 = v[1], v2 = v[2], v3 = v[3]; SIP_ROUND1; v[0] = v0; v[1] = v1; v[2] = v2; v[3] = v3; }
+void t_sip_compress(uint64_t v[4], uint64_t m)
+{ uint64_t v0 = v[0], v1 = v[1], v2 = v[2], v3 = v[3]; sip_compress(2); v[0] = v0; v[1] = v1; v[2] = v2; v[3] = v3; }
+uint64_t t_sip_finalize(const uint64_t v[4])
+{ uint64_t v0 = v[0], v1 = v[1], v2 = v[2], v3 = v[3]; sip_finalize(4); return (v0 ^ v1 ^ v2 ^ v3); }
+void t_l3_mix(uint32_t s[3])
+{ uint32_t a = s[0], b = s[1], c = s[2]; mix(a, b, c); s[0] = a; s[1] = b; s[2] = c; }
+void t_l3_final(uint32_t s[3])
+{ uint32_t a = s[0], b = s[1], c = s[2]; final(a, b, c); s[0] = a; s[1] = b; s[2] = c; }
+#define T_LOAD4 uint64_t h0 = h[0], h1 = h[1], h2 = h[2], h3 = h[3]
+#define T_STORE4 h[0] = h0; h[1] = h1; h[2] = h2; h[3] = h3
+#define T_LOAD12 uint64_t h0 = h[0], h1 = h[1], h2 = h[2], h3 = h[3], h4 = h[4], h5 = h[5], \\
+	h6 = h[6], h7 = h[7], h8 = h[8], h9 = h[9], h10 = h[10], h11 = h[11]
+#define T_STORE12 h[0] = h0; h[1] = h1; h[2] = h2; h[3] = h3; h[4] = h4; h[5] = h5; \\
+	h[6] = h6; h[7] = h7; h[8] = h8; h[9] = h9; h[10] = h10; h[11] = h11
+void t_sp_short_mix(uint64_t h[4]) { T_LOAD4; ShortMix(h0, h1, h2, h3); T_STORE4; }
+void t_sp_short_end(uint64_t h[4]) { T_LOAD4; ShortEnd(h0, h1, h2, h3); T_STORE4; }
+void t_sp_mix(const uint64_t data[12], uint64_t h[12]) { T_LOAD12; Mix(data, h0, h1, h2, h3, h4, h5, h6, h7, h8, h9, h10, h11); T_STORE12; }
+void t_sp_end_partial(uint64_t h[12]) { T_LOAD12; EndPartial(h0, h1, h2, h3, h4, h5, h6, h7, h8, h9, h10, h11); T_STORE12; }
+void t_sp_end(const uint64_t data[12], uint64_t h[12]) { T_LOAD12; End(data, h0, h1, h2, h3, h4, h5, h6, h7, h8, h9, h10, h11); T_STORE12; }
+"""
+
+
+def c16t_module(repo=None, workdir='/tmp'):
+    """usual/hashing: SIP_ROUND1 / sip_compress(2) / sip_finalize(4) of siphash.c and mix / final of
+    lookup3.c (macros, instantiated by the wrappers of C16_STUB), crc32() + its table and the
+    calc_crc32 loop of crc32.c, rol64 of usual/bits.h (rotation counts 1..63)"""
+    repo = repo or _default_repo()
+    stub = _stub(workdir, 'c16t_stub.c', C16_STUB)
+    m = Module(stub, repo, flt='t_')
+    m.fn('rol64', {'v': 'val', 's': 'val'}, assume={'s': (1, 63)}, flt='rol64')
+    m.fn('t_sip_round', {'v': ('arr', 4)})
+    m.fn('t_sip_compress', {'v': ('arr', 4), 'm': 'val'})
+    m.fn('t_sip_finalize', {'v': ('arr', 4)})
+    m.fn('t_l3_mix', {'s': ('arr', 3)})
+    m.fn('t_l3_final', {'s': ('arr', 3)})
+    m.fn('t_sp_short_mix', {'h': ('arr', 4)})
+    m.fn('t_sp_short_end', {'h': ('arr', 4)})
+    m.fn('t_sp_mix', {'data': ('arr', 12), 'h': ('arr', 12)})
+    m.fn('t_sp_end_partial', {'h': ('arr', 12)})
+    m.fn('t_sp_end', {'data': ('arr', 12), 'h': ('arr', 12)})
+    m.fn('crc32', {'prev': 'val', 'c': 'val'}, flt='crc32')
+    m.fn('calc_crc32', {'data': ('ptr', 'rp'), 'len': 'val', 'init': 'val'}, flt='calc_crc32')
+    return m.text('Usual.Gen.C16T', GEN_NOTE % ('usual/hashing/{siphash,lookup3,spooky,crc32}.c, usual/bits.h', 'C16'))
+
+
+def c05tsha_module(repo=None, workdir='/tmp'):
+    """usual/crypto/sha256.c: sha256_core, the compression function on the `words` view of the
+    block buffer (64 rounds: the first 16 written out by the R16 macro, the `while (k_pos < 64)`
+    loop unrolled because every test is decided; `if (t >= 16)` pruned the same way), with K[64]
+    from its initialiser, ror32 / rol32 of usual/bits.h and bswap32 of usual/endian.h"""
+    repo = repo or _default_repo()
+    stub = _stub(workdir, 'c05tsha_stub.c', '#include "usual/crypto/sha256.c"\n')
+    m = Module(stub, repo, flt='sha256_core')
+    m.struct('sha256_ctx', union_member={'buf': 'words'})
+    m.fn('rol32', {'v': 'val', 's': 'val'}, assume={'s': (1, 31)}, flt='rol32')
+    m.fn('ror32', {'v': 'val', 's': 'val'}, assume={'s': (1, 31)}, flt='ror32')
+    m.fn('usual_bswap32', {'x': 'val'}, flt='usual_bswap32')
+    m.fn('sha256_core', {'ctx': 'struct'}, prune=True)
+    return m.text('Usual.Gen.C05TSha', GEN_NOTE % ('usual/crypto/sha256.c, usual/bits.h, usual/endian.h', 'C05'))
+
+
 TTIE = {
     'C12': (c12t_module, 'usual/mbuf.h + usual/mbuf.c'),
     'C09': (c09t_module, 'usual/bits.h safe_mul_*'),
@@ -2294,6 +2438,7 @@ TTIE = {
     'C02': (c02t_module, 'usual/json.c parse_hex'),
     'C14': (c14t_module, 'usual/string.c memrchr'),
     'C05': (c05t_module, 'usual/crypto/chacha.c chacha_mix + usual/bits.h rol32'),
+    'C16': (c16t_module, 'usual/hashing siphash/lookup3 macros + crc32'),
     'C06': (c06t_module, 'usual/cbtree.c get_bit/find_crit_bit + usual/bits.h fls'),
 }
 
